@@ -147,7 +147,7 @@ class Report:
             "rules": self.rules,
             "per_rule": per_rule,
             "analysed": self.analysed,
-            "obligation_list": [o.as_dict() for o in self.obligations],
+            "obligation_list": _compress([o.as_dict() for o in self.obligations]),
             "known_findings_matched": [kf.get("what", "") for _, kf in known_hit],
             "undecided": [o.as_dict() for o in und],
             "notes": self.notes,
@@ -184,6 +184,20 @@ class Report:
             print(f"ANALYSIS-ERROR property={self.prop} {len(und)} obligation(s) undecided (not a violation)")
             return 2
         return 0
+
+
+def _compress(items: List[Dict[str, Any]]) -> List[Dict[str, Any]]:
+    """Identical obligations (same rule, instance, location, verdict) are listed once with a count."""
+    out: List[Dict[str, Any]] = []
+    index: Dict[str, int] = {}
+    for d in items:
+        k = json.dumps(d, sort_keys=True, default=str)
+        if k in index:
+            out[index[k]]["count"] = out[index[k]].get("count", 1) + 1
+        else:
+            index[k] = len(out)
+            out.append(dict(d))
+    return out
 
 
 def _strip_line(where: str) -> str:
